@@ -169,6 +169,8 @@ type CertCase struct {
 	// KeyExp: when > 0, the subject is the RSA subject key's modulus under this public exponent (only
 	// for certificates issued by another key: no private key is needed for the subject)
 	KeyExp int64
+	// IAN: issuerAltName extension (2.5.29.18): 0 = none | 1 = a DNS name | 2 = a URI only | 3 = DNS name, e-mail address and IP address
+	IAN int `json:",omitempty"`
 	// UniqueIDs: 0 = none; 1 = issuerUniqueID, 2 = subjectUniqueID, 3 = both are written into the body in front of the
 	// extensions (legal in version 2 / 3 certificates; crypto/x509 never emits them but reads past them)
 	UniqueIDs int `json:",omitempty"`
@@ -324,6 +326,9 @@ func genCert(t *rapid.T) CertCase {
 		c.Vendor = append(c.Vendor, v)
 	}
 	c.Trailing = rapid.SliceOfN(rapid.Byte(), 1, 4).Draw(t, "trailing")
+	if rapid.IntRange(0, 5).Draw(t, "ian") == 3 {
+		c.IAN = rapid.IntRange(1, 3).Draw(t, "ianKind")
+	}
 	if rapid.IntRange(0, 7).Draw(t, "uniqueIDs") == 5 {
 		c.UniqueIDs = rapid.IntRange(1, 3).Draw(t, "uniqueIDsWhich")
 	}
@@ -393,6 +398,19 @@ func (c CertCase) der() ([]byte, error) {
 	}
 	for _, v := range c.Vendor {
 		tpl.ExtraExtensions = append(tpl.ExtraExtensions, pkix.Extension{Id: v.oid(), Critical: v.Critical, Value: v.Value})
+	}
+	if c.IAN != 0 {
+		gn := func(tag byte, v string) []byte { return append([]byte{tag, byte(len(v))}, v...) }
+		var names []byte
+		switch c.IAN {
+		case 1:
+			names = gn(0x82, "issuer.example")
+		case 2:
+			names = gn(0x86, "https://ca.example/issuer")
+		default:
+			names = append(append(gn(0x82, "issuer.example"), gn(0x81, "ca@issuer.example")...), 0x87, 4, 10, 9, 8, 7)
+		}
+		tpl.ExtraExtensions = append(tpl.ExtraExtensions, pkix.Extension{Id: asn1.ObjectIdentifier{2, 5, 29, 18}, Value: append([]byte{0x30, byte(len(names))}, names...)})
 	}
 	parent, signer := tpl, c.SubjectKey
 	if c.SignerKey != "" {
@@ -469,6 +487,11 @@ func agree(got, std *x509.Certificate, raw bool) error {
 	}
 	if got.Subject.String() != std.Subject.String() || got.Issuer.String() != std.Issuer.String() {
 		return vh.Errf("names differ: subject %q vs %q, issuer %q vs %q", got.Subject, std.Subject, got.Issuer, std.Issuer)
+	}
+	// the alternative names of the SUBJECT (what the subjectAltName extension says, and nothing else)
+	ips := func(c *x509.Certificate) string { return fmt.Sprint(c.IPAddresses) }
+	if fmt.Sprint(got.DNSNames) != fmt.Sprint(std.DNSNames) || fmt.Sprint(got.EmailAddresses) != fmt.Sprint(std.EmailAddresses) || ips(got) != ips(std) {
+		return vh.Errf("subject alternative names differ: DNS %q vs %q, e-mail %q vs %q, IP %v vs %v", got.DNSNames, std.DNSNames, got.EmailAddresses, std.EmailAddresses, got.IPAddresses, std.IPAddresses)
 	}
 	if !got.NotBefore.Equal(std.NotBefore) || !got.NotAfter.Equal(std.NotAfter) {
 		return vh.Errf("validity differs: %v..%v vs %v..%v", got.NotBefore, got.NotAfter, std.NotBefore, std.NotAfter)
@@ -639,7 +662,7 @@ func execCert(c CertCase) (vh.Outcome, error) {
 
 func TestC16ParseAgree(t *testing.T) {
 	vh.Run(t, vh.Spec[CertCase]{Property: "C16", Name: "TestC16ParseAgree",
-		Rule: "certificates from x509.CreateCertificate: RSA 1024..2048 (3072/4096 in thorough; sizes not divisible by 8; public exponent 65537 or, for issued certificates, 3 / 17 / 65539 / 2^31-1 / 2^31 / 2^32+1 / 2^40+15 / 2^62+1) and P-256/384/521 subject keys; self-signed or issued by RSA / ECDSA CAs with PKCS#1, PSS and ECDSA signature algorithms; serials to 20 bytes; names with UTF-8 attributes; validity 1950..9999 incl. the UTCTime/GeneralizedTime edge; basic constraints, key usage, key ids, SAN dns/email/ip, EKU known+unknown, policies, vendor OIDs 1.3.6.1.4.1.41482.3.x critical or not (serial extension well-formed or arbitrary); half of the certificates carry their extensions in a permuted (or reversed) order; an eighth carry issuerUniqueID and / or subjectUniqueID in front of the extensions (rewritten DER; the signature is not renewed - neither parser looks at it). Oracle: crypto/x509 accepts => lenient parser accepts and agrees on Raw, RawTBS, SPKI, names (raw and parsed), key, signature, algorithms, serial, validity, version, extension list; DER+trailing bytes refused, also when the trailing bytes are a complete certificate; NULL-less RSA variant (lengths rewritten) accepted with the same fields; ModHex of the parsed certificate judged by the reference rendering. Non-trivial: >=2 extensions or a NULL-less variant.",
+		Rule: "certificates from x509.CreateCertificate: RSA 1024..2048 (3072/4096 in thorough; sizes not divisible by 8; public exponent 65537 or, for issued certificates, 3 / 17 / 65539 / 2^31-1 / 2^31 / 2^32+1 / 2^40+15 / 2^62+1) and P-256/384/521 subject keys; self-signed or issued by RSA / ECDSA CAs with PKCS#1, PSS and ECDSA signature algorithms; serials to 20 bytes; names with UTF-8 attributes; validity 1950..9999 incl. the UTCTime/GeneralizedTime edge; basic constraints, key usage, key ids, SAN dns/email/ip, EKU known+unknown, policies, issuerAltName (a DNS name, a URI only, or DNS + e-mail + IP), vendor OIDs 1.3.6.1.4.1.41482.3.x critical or not (serial extension well-formed or arbitrary); half of the certificates carry their extensions in a permuted (or reversed) order; an eighth carry issuerUniqueID and / or subjectUniqueID in front of the extensions (rewritten DER; the signature is not renewed - neither parser looks at it). Oracle: crypto/x509 accepts => lenient parser accepts and agrees on Raw, RawTBS, SPKI, names (raw and parsed; the subject's alternative DNS names, e-mail addresses and IP addresses), key, signature, algorithms, serial, validity, version, extension list; DER+trailing bytes refused, also when the trailing bytes are a complete certificate; NULL-less RSA variant (lengths rewritten) accepted with the same fields; ModHex of the parsed certificate judged by the reference rendering. Non-trivial: >=2 extensions or a NULL-less variant.",
 		Gen:  genCert, Exec: execCert})
 }
 
